@@ -23,7 +23,7 @@ VALUES = ["Foo", "", "a: b", ": ", "Ünï©ode", "日本語", "\U0001F600", "  l
 UNKNOWN_TAGS = ["Foo", "foo", "FOO", "x", "a-b_c", "File", "FILE", "time", "TIME", "pos", "ID", "format", "Directory", "last-modified",
                 "Mood", "TitleSort", "Albumx", "Duration", "range", "PRIO"]
 DURS = ["0", "1", "123.456", "0.0005", "4194303.999999999", "5.", ".5", "+7.25", "00012.250", "1.500", "0.000000001", "3600", "59.999",
-        "0.100", "-0", "-0.000"]
+        "0.100"]
 FORMATS = ["44100:16:2", "48000:24:2", "dsd64:2", "*:*:*", "", "a: b"]
 
 
@@ -44,7 +44,7 @@ def gen_attr(rng, names):
         return ("Time", rng.choice(["0", "1", "215", "3600", "4194303", "12.5"]))
     if r < 0.25:
         f = rng.choice(["1.5", "0", "10", "0.250", "4194303.999999999", ".5", "+2"])
-        t = rng.choice([None, None, "3.25", "20", "0.750", "-0"])
+        t = rng.choice([None, None, "3.25", "20", "0.750", "4194303.5"])
         return ("Range", f, t)
     if r < 0.32:
         return ("Format", rng.choice(FORMATS))
@@ -201,7 +201,8 @@ BAD_NUM = ["", "-1", "1x", " 5", "5 ", "0x10", "1.0", "18446744073709551616", "9
 BAD_DUR = ["", ".", "+", "-", "-1", "-0.5", "1e", "1e+", "inf", "-inf", "Infinity", "nan", "NaN", "1_0", "0x10", " 1", "1 ", "1..5",
            "--1", "e3", "abc", "36893488147419103232", "1,5"]
 ODD_DUR = ["1e3", "1E-3", "1e-400", "-1e-400", "18446744073709551615", "18446744073709551616", "9007199254740993", "0.1234567891",
-           "0.0000000005", "4194304.000000001", "1e300", "1e19", "1.8446744073709552e19", "-0.0000000001", "123456789.123456789"]
+           "0.0000000005", "4194304.000000001", "1e300", "1e19", "1.8446744073709552e19", "-0.0000000001", "123456789.123456789",
+           "-0", "-0.000", "+0", "000", "1.", ".5"]
 BAD_RANGE = ["foo", "5", "", "-5", "-", "1.0--5.0", "a-b", "1-2-3", "1.5-x", "inf-1", "1-nan"]
 BAD_TS = ["", "x", "2020-06-12", "2020-06-12T17:53", "20200612T175300Z", "2020-6-12T17:53:0Z", "yesterday"]
 ODD_TS = ["2020-06-12T17:53:00", "2020-06-12t17:53:00z", "2020-06-12 17:53:00Z", "2020-06-12T17:53:00+02:00", "2020-06-12T17:53:00.123Z",
@@ -368,7 +369,17 @@ def gen(ctx, names):
     n_valid = 700 if ctx.tier == "quick" else 12000
     n_bad = 500 if ctx.tier == "quick" else 8000
 
+    def ambiguous(listing):
+        # several `Time` lines with different values and no `duration`: MPD never sends that and the
+        # code's choice (the first) is arbitrary -> correspondence only, no verdict from the reference
+        for e in listing:
+            if e[0] == "song" and not any(a[0] == "duration" for a in e[2]):
+                if len({nanos(a[1]) for a in e[2] if a[0] == "Time"}) > 1:
+                    return True
+        return False
+
     def add(listing, cmd, oracle=True):
+        oracle = oracle and not ambiguous(listing)
         cases.append(f"songs {cmd} {hexs(wire_of(enc_listing(listing)))}")
         expect.append(expected_line(listing, cmd, canon) if oracle else None)
         meta.append(("valid", listing, cmd))
@@ -416,6 +427,35 @@ def gen(ctx, names):
     return cases, expect, meta
 
 
+def extra_builds(ctx):
+    """thorough tier: the other cfg (feature chrono off), built into a target directory of its own"""
+    ctx.nc_bin = None
+    if ctx.tier == "thorough":
+        import os
+        import vlib
+        tgt = vlib.TARGET + "_nc"
+        if vlib.step_harness(ctx, features="", target=tgt):
+            ctx.nc_bin = os.path.join(vlib.CACHE, tgt, "debug", "verif_harness")
+
+
+def run_nochrono(ctx, cases, expect, meta):
+    """Same cases with chrono off (driver kind songs_nc): every timestamp text is accepted verbatim."""
+    sel = [(c, e, m) for c, e, m in zip(cases, expect, meta)
+           if m[0] == "valid" or (m[0] == "malformed" and b"Last-Modified" in unhexs(c.split(" ")[2]))]
+    nc_cases = ["songs_nc" + c[5:] for c, _, _ in sel]
+    impl = ctx.run_impl(nc_cases, harness_bin=ctx.nc_bin)
+    model = ctx.run_model(nc_cases) if ctx.model_ok else None
+    dis, fails = [], []
+    for i, (c, a) in enumerate(zip(nc_cases, impl)):
+        if model is not None and not model_matches(c, a, model[i]):
+            dis.append({"case": c, "impl": a[:4000], "model": model[i][:4000], "cfg": "no chrono"})
+        exp = sel[i][1] if sel[i][2][0] == "valid" else None
+        if a == "PANIC" or (exp is not None and a != exp):
+            fails.append(Failure(c, f"(feature chrono off) {c.split(' ')[1]} reply {unhexs(c.split(' ')[2])!r}\n  listed (reference):  {str(exp)[:1500]}\n  implementation:      {a[:1500]}",
+                                 extra={"expect": exp}))
+    return len(nc_cases), dis, fails[:5]
+
+
 def run(ctx, only=None):
     names = tag_names(ctx)
     canon = {n.lower(): n for n in names}
@@ -436,6 +476,8 @@ def run(ctx, only=None):
     for c, out, exp, mt in zip(cases, impl, expect, meta):
         if out == "PANIC":
             fails.append(Failure(c, f"the implementation PANICS decoding the reply {unhexs(c.split(' ')[2])!r} as {c.split(' ')[1]}", extra={"expect": exp}))
+        elif exp is not None and mt[0] == "malformed" and exp.startswith("err invalid_value") and out.split(" ")[:3] == exp.split(" ")[:3]:
+            pass      # which part of a bad value is reported back is not the property's business
         elif exp is not None and out != exp:
             case, small = c, None
             if mt[0] == "valid" and only is None:
@@ -453,6 +495,11 @@ def run(ctx, only=None):
             if model is not None:
                 print("model:", model[i][:1500])
             print("spec :", (expect[i] or "(no reference for this case)")[:1500])
+    n_nc = 0
+    if only is None and getattr(ctx, "nc_bin", None):
+        n_nc, dis_nc, fails_nc = run_nochrono(ctx, cases, expect, meta)
+        dis += dis_nc
+        fails += fails_nc
     nsongs = sum(sum(1 for e in m[1] if e[0] == "song") for m in meta if m[0] == "valid")
     dist = {
         "valid_listing_cases": sum(1 for m in meta if m[0] == "valid"),
@@ -465,10 +512,11 @@ def run(ctx, only=None):
         "impl_ok": sum(1 for o in impl if o.startswith("ok")), "impl_err": sum(1 for o in impl if o.startswith("err")),
         "impl_noresponse": sum(1 for o in impl if o.startswith("no")),
         "model_lines_with_opaque_token": n_wild,
+        "cases_rerun_with_feature_chrono_off": n_nc,
     }
     nontrivial = {c for c, m in zip(cases, meta) if m[0] == "malformed" or (m[0] == "valid" and len(m[1]) >= 2)}
     return finish(
-        ctx, evaluations=len(cases), distinct_nontrivial=len(nontrivial),
+        ctx, evaluations=len(cases) + n_nc, distinct_nontrivial=len(nontrivial),
         rule="listings of 0..30 entries generated from the abstract type (songs with any subset/order/repetition of duration, Time, Range, "
              "Format, Last-Modified, Prio, Pos, Id and tag lines incl. unknown names and letter-case variants, values with ': ' and non-ASCII; "
              "interleaved directory/playlist entries with their own Last-Modified; a quarter in MPD's own line order), encoded to wire bytes, pushed "
